@@ -79,7 +79,11 @@ func pendingObls(j *Job) []*Obligation {
 func buildIncremental(j *Job, todo []*Obligation, timeoutMs int, dropQ bool) string {
 	sc := NewScript()
 	sc.dropQ = dropQ
-	sc.Raw(preamble(timeoutMs))
+	if dropQ {
+		sc.Raw(opaqueCalendar(preamble(timeoutMs)))
+	} else {
+		sc.Raw(preamble(timeoutMs))
+	}
 	asserted := 0
 	ins := inputTerms(j)
 	var skFacts []int
@@ -354,6 +358,7 @@ type solverDef struct {
 var solvers = []solverDef{
 	// same core as the chunked first stage (z3 switches to its incremental smt core after a push)
 	{"z3-5.1.0-noext-inc", "z3-new", []string{"-in", "smt.array.extensional=false"}, false},
+	{"z3-5.1.0-noext-opaquecal", "z3-new", []string{"-in", "smt.array.extensional=false"}, false},
 	{"z3-5.1.0-noext", "z3-new", []string{"-in", "smt.array.extensional=false"}, false},
 	{"z3-5.1.0", "z3-new", []string{"-in"}, true},
 	{"z3-4.8.12", "/usr/bin/z3", []string{"-in"}, true},
@@ -383,6 +388,13 @@ func portfolioScript(j *Job, o *Obligation, script string, cfg SolverCfg) {
 			sc := script
 			if strings.HasPrefix(s.name, "cvc5") {
 				sc = "(set-logic ALL)\n" + script
+			}
+			if strings.HasSuffix(s.name, "-opaquecal") {
+				if !strings.Contains(sc, "(cal.dn ") {
+					ch <- res{s.name, "unknown (not applicable)", 0}
+					return
+				}
+				sc = opaqueCalendar(sc)
 			}
 			if strings.HasSuffix(s.name, "-inc") {
 				sc = strings.Replace(sc, "(check-sat)", "(push 1)\n(check-sat)", 1)
@@ -774,4 +786,15 @@ func goalSkolems(j *Job, o *Obligation) map[string]bool {
 		}
 	}
 	return out
+}
+
+// opaqueCalendar turns the day-number function into an uninterpreted function (a weakening: `unsat` stays sound).
+// Obligations that only need "the day number moved by k" then stop dragging the div/mod definition along.
+func opaqueCalendar(script string) string {
+	i := strings.Index(script, "(define-fun cal.dn ")
+	if i < 0 {
+		return script
+	}
+	j := strings.Index(script[i:], "\n")
+	return script[:i] + "(declare-fun cal.dn (Int Int Int) Int)" + script[i+j:]
 }
